@@ -194,3 +194,60 @@ func verifLemmaUnknownParameter(qfi, id, l uint8, rest []byte) error {
 	var d QoSFlowDescs
 	return d.UnmarshalBinary(b)
 }
+
+// boundary counts: 15 packet filters in one rule (4-bit count), 63 parameters in one description (6-bit count)
+func verifLemmaRuleFilters15(id, prec, qfi uint8, ids [15]uint8) (bool, error) {
+	var pfs PacketFilterList
+	for i := 0; i < 15; i++ {
+		pfs = append(pfs, PacketFilter{Identifier: ids[i] & 0x0F, Direction: PacketFilterDirectionDownlink,
+			Components: PacketFilterComponentList{&PacketFilterMatchAll{}}})
+	}
+	rules := QoSRules{{Identifier: id, Operation: OperationCodeCreateNewQoSRule, PacketFilterList: pfs, Precedence: prec, QFI: qfi}}
+	b, err := rules.MarshalBinary()
+	if err != nil {
+		return false, err
+	}
+	var got QoSRules
+	if err := got.UnmarshalBinary(b); err != nil {
+		return false, err
+	}
+	if len(got) != 1 || len(got[0].PacketFilterList) != 15 || got[0].Identifier != id || got[0].Precedence != prec || got[0].QFI != qfi {
+		return false, nil
+	}
+	for i := 0; i < 15; i++ {
+		f := got[0].PacketFilterList[i]
+		if f.Identifier != ids[i]&0x0F || f.Direction != PacketFilterDirectionDownlink || len(f.Components) != 1 {
+			return false, nil
+		}
+		if _, ok := f.Components[0].(*PacketFilterMatchAll); !ok {
+			return false, nil
+		}
+	}
+	return true, nil
+}
+
+func verifLemmaFlowParameters63(qfi uint8, vals [63]uint8) (bool, error) {
+	var ps QoSFlowParameterList
+	for i := 0; i < 63; i++ {
+		ps = append(ps, &QoSFlowEBI{EBI: vals[i]})
+	}
+	descs := QoSFlowDescs{{QFI: qfi, OperationCode: OperationCodeCreateNewQoSFlowDescription, Parameters: ps}}
+	b, err := descs.MarshalBinary()
+	if err != nil {
+		return false, err
+	}
+	var got QoSFlowDescs
+	if err := got.UnmarshalBinary(b); err != nil {
+		return false, err
+	}
+	if len(got) != 1 || len(got[0].Parameters) != 63 || got[0].QFI != qfi {
+		return false, nil
+	}
+	for i := 0; i < 63; i++ {
+		p, ok := got[0].Parameters[i].(*QoSFlowEBI)
+		if !ok || p.EBI != vals[i] {
+			return false, nil
+		}
+	}
+	return true, nil
+}
